@@ -152,6 +152,11 @@ func (ph *peerHandler) startIfDisconnected() {
 	ph.mu.Lock()
 	defer ph.mu.Unlock()
 
+	if ph.ctx.Err() != nil {
+		// The handler was stopped (service stopped or peer removed) after this
+		// call was scheduled: do not start reconnecting again.
+		return
+	}
 	if ph.reconnectTimer == nil && ph.host.Network().Connectedness(ph.peer) != network.Connected {
 		logger.Debugw("disconnected from peer", "peer", ph.peer)
 		// Always start with a short timeout so we can stagger things a bit.
